@@ -223,6 +223,13 @@ func (m *StateMachine) handleCatchupEvent(
 			if !m.handleFinalization(ctx, rlc, resp) {
 				return false
 			}
+
+			if !rlc.IsReplaying() {
+				// That finalization took us to a height the mirror answered with a live round view:
+				// we have caught up, so go back to the kernel loop, which now handles live events.
+				// Staying in this loop would ignore view updates, timers and the consensus strategy forever.
+				return true
+			}
 		}
 	}
 }
